@@ -51,10 +51,20 @@ def _dimension_types(tree, cls, attrs) -> list:
         if isinstance(node, ast.ClassDef) and node.name == cls:
             for st in node.body:
                 if isinstance(st, ast.FunctionDef) and st.name == "_cell_type":
+                    # locals bound (once) to a list/tuple literal: `types = [..]; return types[self._dimension - 1]`
+                    local = {}
+                    for a in ast.walk(st):
+                        tgt = a.targets[0] if (isinstance(a, ast.Assign) and len(a.targets) == 1) else \
+                            (a.target if isinstance(a, ast.AnnAssign) else None)
+                        if isinstance(tgt, ast.Name) and isinstance(a.value, (ast.List, ast.Tuple)):
+                            local[tgt.id] = None if tgt.id in local else a.value
                     for r in ast.walk(st):
-                        if isinstance(r, ast.Return) and isinstance(r.value, ast.Subscript) \
-                                and isinstance(r.value.value, ast.List):
-                            return [attrs[e.attr] for e in r.value.value.elts]
+                        if isinstance(r, ast.Return) and isinstance(r.value, ast.Subscript):
+                            seq = r.value.value
+                            if isinstance(seq, ast.Name) and local.get(seq.id) is not None:
+                                seq = local[seq.id]
+                            if isinstance(seq, (ast.List, ast.Tuple)):
+                                return [attrs[e.attr] for e in seq.elts]
     raise ValueError(f"_cell_type list of {cls} not found")
 
 
